@@ -406,6 +406,36 @@ def r7(c):
         for k, val in zip(ret_.value.keys, ret_.value.values):
             if isinstance(k, ast.Constant) and k.value == "timeout" and not any(isinstance(x, ast.Name) and x.id == rp for x in ast.walk(val)):
                 cc = val.value if isinstance(val, ast.Constant) else (a if "DEFAULT_TIMEOUT" in norm(val) else None)
+    # the rule arm: the timeout a matching deploy rule carries reaches the command unchanged (an access path into the rule, at most `.get(k, default)`, `float(...)`
+    # or `path or default` around it — the scheme validates a float >= 1, so these are the identity); any other operation on the way (int(), round(), arithmetic,
+    # min/max) makes the value sent differ from the value the rule states for some legal `%timeout`
+    def pure_path(e):
+        if isinstance(e, ast.Name):
+            if e.id == rp:
+                return True
+            defs = [n.value for n in walk_no_nested(mc) if isinstance(n, ast.Assign) and len(n.targets) == 1 and isinstance(n.targets[0], ast.Name) and n.targets[0].id == e.id]
+            return len(defs) == 1 and pure_path(defs[0])
+        if isinstance(e, ast.Subscript):
+            return pure_path(e.value)
+        if isinstance(e, ast.Attribute):
+            return pure_path(e.value)
+        if isinstance(e, ast.Call) and isinstance(e.func, ast.Attribute) and e.func.attr == "get" and not e.keywords:
+            return pure_path(e.func.value)
+        if isinstance(e, ast.Call) and isinstance(e.func, ast.Name) and e.func.id == "float" and len(e.args) == 1 and not e.keywords:
+            return pure_path(e.args[0])
+        if isinstance(e, ast.BoolOp) and isinstance(e.op, ast.Or):
+            return pure_path(e.values[0])
+        if isinstance(e, ast.IfExp):
+            return all(pure_path(x) or isinstance(x, ast.Constant) or "DEFAULT_TIMEOUT" in norm(x) for x in (e.body, e.orelse))
+        return False
+    n_rule_arm = 0
+    for ret_ in [n for n in walk_no_nested(mc) if isinstance(n, ast.Return) and isinstance(n.value, ast.Dict)]:
+        for k, val in zip(ret_.value.keys, ret_.value.values):
+            if isinstance(k, ast.Constant) and k.value == "timeout" and any(isinstance(x, ast.Name) and x.id == rp for x in ast.walk(val)):
+                n_rule_arm += 1
+                c.check("C09.R7", pure_path(val), repo.loc(repo.module(DEPLOY), val), "rule-timeout-unchanged",
+                        f"the timeout of the matching deploy rule reaches the command as `{norm(val)[:80]}`: the value is transformed on the way, so a legal `%timeout` (any float >= 1) "
+                        "is sent as a different number than the rule states", key_text="rule-timeout")
     c.count("tables", 3)
     ok = a is not None and a == b == cc
     c.check("C09.R7", ok, repo.loc(repo.module(DEPLOY), mc), "default-timeouts", f"DEFAULT_TIMEOUT={a}, scheme default={b}, make_cmd_params fallback={cc}: a command without a matching rule gets a different timeout "
